@@ -77,12 +77,29 @@ func hooksC20() Hooks {
 		}
 		key := fmt.Sprintf("clean:%d", op.B)
 		gen, _ := r.Ctx[fmt.Sprintf("gen:%d", op.B)].(int)
-		if clean, ok := r.Ctx[key].(bool); ok && !clean {
-			// the source was not only appended to: continue with a fresh, empty target
-			gen++
-			r.Ctx[fmt.Sprintf("gen:%d", op.B)] = gen
-		}
 		tgt := filepath.Join(r.Base, fmt.Sprintf("backup%d_%d", op.B, gen))
+		if clean, ok := r.Ctx[key].(bool); ok && !clean {
+			// the source was not only appended to: continue with an empty target, either a new
+			// directory or the same path emptied and recreated (rotating backups)
+			if r.Obs.Bool() {
+				if err := os.RemoveAll(tgt); err != nil {
+					panic(infraErr{err})
+				}
+				delete(r.Ctx, "used:"+tgt)
+				r.probe("backup_target_path_reused_after_wipe")
+			} else {
+				gen++
+				r.Ctx[fmt.Sprintf("gen:%d", op.B)] = gen
+				tgt = filepath.Join(r.Base, fmt.Sprintf("backup%d_%d", op.B, gen))
+			}
+		} else if ok && r.Obs.Chance(15) {
+			// also without a reason: an emptied target is an empty directory
+			if err := os.RemoveAll(tgt); err != nil {
+				panic(infraErr{err})
+			}
+			delete(r.Ctx, "used:"+tgt)
+			r.probe("backup_target_path_reused_after_wipe")
+		}
 		_, existed := r.Ctx["used:"+tgt]
 		r.Ctx["used:"+tgt] = true
 		r.Ctx[key] = true
@@ -94,7 +111,12 @@ func hooksC20() Hooks {
 		// Stat sizes are compared through the files themselves (below): opening the target may
 		// legitimately re-encode a header-only index in the version of the current options
 		q := r.obsQ(true, false)
-		want := Observe(r.L, q)
+		if op.A == 1 && len(indexFiles(r.Dir)) < len(segmentBases(r.Dir)) {
+			// the package-level Backup works on the files alone and cannot rebuild a lost index
+			// file; no property speaks about that case: have the indexes rebuilt first
+			_ = Observe(r.L, q)
+			r.probe("offline_backup_after_index_rebuild")
+		}
 		src0 := snapDir(r.Dir)
 		var err error
 		if op.A == 0 {
@@ -112,10 +134,15 @@ func hooksC20() Hooks {
 			r.unexpected("Backup", err)
 			return true
 		}
-		if d := src0.diff(snapDir(r.Dir)); d != "" {
+		// the source is observed after the backup (reads change nothing): the backup is then
+		// also the first access to segments whose index file was lost
+		want := Observe(r.L, q)
+		src1 := snapDir(r.Dir)
+		if d := sourceChanged(src0, src1); d != "" {
 			r.violate("source-changed", "Backup changed the source directory: %s", d)
 			return true
 		}
+		src0 = src1 // an index file that was lost may have been rebuilt (derived data); the target must match the source as it is now
 		o := klevdb.Options{KeyIndex: r.P.Cfg.Keys, TimeIndex: r.P.Cfg.Times}
 		if e := guard(func() error { return klevdb.Check(tgt, o) }); e != nil && (!r.M.Times || r.M.Monotone) {
 			r.violate("check-target|"+errKind(e)+repTag(existed), "Check of the backup failed: %v", e)
@@ -149,6 +176,27 @@ func hooksC20() Hooks {
 		return true
 	}
 	return h
+}
+
+// sourceChanged compares the source before and after a backup: every file that existed must
+// be byte-identical; the only thing that may appear is the index file of a segment whose
+// index had been lost (it is derived data and gets rebuilt when the backup needs it).
+func sourceChanged(before, after dirSnap) string {
+	for n, b := range before {
+		a, ok := after[n]
+		if !ok {
+			return fmt.Sprintf("file %s disappeared", n)
+		}
+		if string(a) != string(b) {
+			return fmt.Sprintf("file %s changed (%d -> %d bytes)", n, len(b), len(a))
+		}
+	}
+	for n := range after {
+		if _, ok := before[n]; !ok && !strings.HasSuffix(n, ".index") {
+			return fmt.Sprintf("file %s appeared", n)
+		}
+	}
+	return ""
 }
 
 func repTag(rep bool) string {
@@ -193,6 +241,9 @@ func genPlanC19(def *PropDef, tier string, seed uint64, run int64) *Plan {
 			}
 		}
 		add(Op{K: "w_close"})
+		if rng.Chance(25) {
+			add(Op{K: "ro_damage_probe", A: int64(rng.Intn(2)), B: int64(rng.Intn(4))})
+		}
 		if rng.Chance(35) {
 			add(Op{K: "fail_open", A: int64(rng.Intn(2)), B: int64(rng.Range(1, 3)), C: int64(rng.Pick(20, 50, 10, 20))})
 		}
@@ -428,6 +479,8 @@ func hooksC19() Hooks {
 			}
 			_ = guard(func() error { return l.Close() })
 			r.probe("ro_fresh_directory")
+		case "ro_damage_probe":
+			c19DamageProbe(r, s, op)
 		case "fail_open":
 			c19FailOpen(r, s, op)
 		case "rmidx":
@@ -633,4 +686,93 @@ func c19FailOpen(r *Run, s *c19State, op *Op) {
 		}
 		r.probe("lock_released_after_failed_open")
 	}
+}
+
+// c19DamageProbe: with nothing open, the newest log file gets a torn tail (A=0) or a flipped
+// byte inside its last record (A=1); a read-only handle is opened (B: bit0 Check, bit1
+// Recover; it may refuse to open), queried and closed. Whatever the handle makes of the
+// damage: no *.log file may change, and Close (like a failed Open) must leave the directory
+// unlocked. The file is restored afterwards.
+func c19DamageProbe(r *Run, s *c19State, op *Op) {
+	if r.L != nil || len(s.ro) > 0 {
+		return
+	}
+	bases := segmentBases(r.Dir)
+	if len(bases) == 0 {
+		return
+	}
+	lp := filepath.Join(r.Dir, fmt.Sprintf("%020d.log", bases[len(bases)-1]))
+	orig, err := os.ReadFile(lp)
+	if err != nil || len(orig) < 40 {
+		return
+	}
+	dam := append([]byte(nil), orig...)
+	kind := "torn-tail"
+	if op.A == 0 {
+		dam = append(dam, 0x12, 0x34, 0x56, 0x78, 0x9a, 0, 0, 0, 0, 0, 0, 1, 0, 0)
+	} else {
+		kind = "flipped-record-byte"
+		dam[len(dam)-12] ^= 0x40
+	}
+	if err := os.WriteFile(lp, dam, 0o600); err != nil {
+		panic(infraErr{err})
+	}
+	defer func() {
+		if err := os.WriteFile(lp, orig, 0o600); err != nil {
+			panic(infraErr{err})
+		}
+	}()
+	before := logsOnly(snapDir(r.Dir))
+	o := r.OOpts
+	o.Readonly, o.Check, o.Recover, o.Eager = true, op.B&1 == 1, op.B&2 == 2, false
+	var l klevdb.Log
+	oerr := guard(func() error {
+		var e error
+		l, e = klevdb.Open(r.Dir, o.K(&r.P.Cfg))
+		return e
+	})
+	tag := fmt.Sprintf("%s|check=%v|recover=%v", kind, o.Check, o.Recover)
+	if pe, ok := oerr.(*panicErr); ok {
+		r.violate("ro-damage|"+tag+"|open-panic", "read-only Open of a log with a %s panicked: %v", kind, pe.v)
+		return
+	}
+	if oerr == nil {
+		// reads may fail (the log is damaged), they must not panic
+		for _, k := range r.P.Cfg.KeySet {
+			key := k
+			if e := guard(func() error { _, e := l.GetByKey(key); return e }); e != nil {
+				if pe, ok := e.(*panicErr); ok {
+					r.violate("ro-damage|"+tag+"|read-panic", "GetByKey on a read-only handle of a damaged log panicked: %v", pe.v)
+					return
+				}
+			}
+		}
+		_, _, _ = scanLog(l, 3, int(r.M.Next)*2+20)
+		_ = guard(func() error { return l.Close() })
+		r.probe("ro_damage_probe_opened")
+	} else {
+		r.probe("ro_damage_probe_refused")
+	}
+	if d := before.diff(logsOnly(snapDir(r.Dir))); d != "" {
+		r.violate("ro-damage|"+tag+"|log-file-changed", "a read-only handle (Check=%v Recover=%v) on a log with a %s changed a log file: %s", o.Check, o.Recover, kind, d)
+		return
+	}
+	// the directory must be unlocked again: a read-write Open of the repaired directory works
+	if err := os.WriteFile(lp, orig, 0o600); err != nil {
+		panic(infraErr{err})
+	}
+	wo := r.OOpts
+	wo.Readonly, wo.Check, wo.Recover, wo.Eager = false, false, false, false
+	var wl klevdb.Log
+	if e := guard(func() error {
+		var e error
+		wl, e = klevdb.Open(r.Dir, wo.K(&r.P.Cfg))
+		return e
+	}); e != nil {
+		if lockErr(e) {
+			r.violate("ro-damage|"+tag+"|still-locked", "after a read-only session on a damaged log (open error: %v) the directory is still locked: %v", oerr, e)
+		}
+		return
+	}
+	_ = guard(func() error { return wl.Close() })
 }
